@@ -244,6 +244,12 @@ class StmtMixin:
         if ct is not None and ct.ghost.get("update"):
             txt = None
             for anchor, upd in ct.ghost["update"]:
+                if anchor.startswith("assign:"):
+                    # every assignment to the named variable, whatever its right-hand side (robust against rewrites of the expression)
+                    if isinstance(s, ast.Assign) and len(s.targets) == 1 and isinstance(s.targets[0], ast.Name) \
+                            and s.targets[0].id == anchor[7:]:
+                        self.ghost_assign(upd)
+                    continue
                 if txt is None:
                     txt = ast.unparse(s)
                 if txt == anchor:
@@ -276,6 +282,11 @@ class StmtMixin:
                 self._expected_ty = self.ptype(ct.locals[s.targets[0].id])      # declared type of the list being built
         try:
             v = self.eval(s.value)
+            if self._expected_ty is not None and isinstance(v, Cell) and getattr(v, "unknown", False) \
+                    and self._expected_ty.name == "List":
+                # a list built by an unmodelled comprehension whose element type the contract declares: arbitrary content of that type
+                v = self.ctx.fresh(self._expected_ty, s.targets[0].id)
+                v.fresh = True
         finally:
             self._expected_ty = None
         for t in s.targets:
